@@ -680,6 +680,32 @@ pub fn register(r: &mut Registry) {
         }
         f
     });
+    // a design of more than 2^20 elements with correlated columns: the size at which an
+    // implementation might start to ration expensive bookkeeping (convergence tests, logging)
+    // by wall-clock time
+    r.scenario("big2_elasticnet_million", "linfa-elasticnet", Kind::Claim, true, |p| {
+        let (n, d) = (16400 + (p.seed % 200) as usize, 64);
+        let mut x = grid(p, 0xE1A7, n, d);
+        // moderately correlated columns: the first duality-gap test does not pass
+        for i in 0..n {
+            let base = x[[i, 0]];
+            for j in 1..d {
+                x[[i, j]] = 0.6 * base + 0.8 * x[[i, j]];
+            }
+        }
+        let y = Array1::from_shape_fn(n, |i| x[[i, 0]] - 0.5 * x[[i, 7]] + 0.25 * x[[i, 63]] + (i % 5) as f64 * 0.125);
+        let mut f = Fingerprint::new();
+        match linfa_elasticnet::ElasticNet::<f64>::params().penalty(0.02).l1_ratio(0.5).tolerance(1e-9).max_iterations(6).fit(&Dataset::new(x, y)) {
+            Ok(m) => {
+                f.arr("hyperplane", m.hyperplane());
+                f.one("intercept", m.intercept());
+                f.one("duality_gap", m.duality_gap());
+                f.one("n_steps", m.n_steps());
+            }
+            Err(e) => f.err("fit", &e),
+        }
+        f
+    });
     r.scenario("big2_elasticnet_wide", "linfa-elasticnet", Kind::Claim, true, |p| {
         let (n, d) = (24, 4200 + (p.seed % 300) as usize);
         let x = grid(p, 0xE1A2, n, d);
